@@ -1,13 +1,4 @@
+# hook commits in /repo (build tag `verif`), listed in MANIFEST.hooks.source_commits
 HOOK_COMMITS = []
+# reasons for properties that are not claimed (kept current)
 NOT_BUILT = {}
-GEN = "Trusted: Lean kernel (axioms propext/Classical.choice/Quot.sound only, audited each run), the hand-written model's fidelity as validated by the correspondence run, the Go harness; crypto primitives, math/big and the Go runtime are modelled not verified."
-META = {
-    "C11": {
-        "technique": "Lean 4 proof (round trip + canonicity of the RLP model, unbounded) tied to rlp/ by differential correspondence",
-        "text": "Theorems dec_enc, enc_dec, one_encoding_per_value, enc_injective hold for all items/byte strings in the Lean model of the RLP "
-                "encoder and strict decoder; every run re-checks them and runs the real rlp package and the compiled model on the same >100k inputs "
-                "(exhaustive small scope + random + mutations) requiring identical accept/reject and values; typed targets incl. all consensus types "
-                "are judged directly against the round-trip/canonicity statement.",
-        "note": GEN + " Typed (reflection-driven) decoders are not modelled in Lean yet: for them the property is judged on the real code per input (exploration strength), stated in the evidence.",
-    },
-}
